@@ -244,18 +244,14 @@ def apply_subst(ps):
         blk[:] = [st for st in blk if st is not a]
 
 
-def forward_substitute(n, keep_local=None):
-    """`v = E` followed by the one statement that reads v  ->  that statement with E in place of v.  Naming an intermediate value
-    does not change what is computed.  A value consumed *whole* (`x = v`, `return v`, `if v:`) is always substituted; a value
-    used inside a larger expression only when `keep_local(function name, v)` is false, i.e. when the local is not one the pinned
-    tree has (the rules were written against the pinned tree's own temporaries and keep seeing those)."""
+def forward_substitute(n):
+    """`v = E` followed by the one statement that reads v  ->  that statement with E in place of v, wherever `subst_slot` allows it.
+    Naming an intermediate value does not change what is computed; the canonical form has no such temporaries, whatever they are
+    called (the pinned tree's own included: the rules are written against the substituted form)."""
     changed = True
     while changed:
         changed = False
         for v, ps in subst_candidates(n).items():
-            whole = all(sl[0] == "whole" for _, _, sl in ps)
-            if not whole and (keep_local is None or keep_local(n, v)):
-                continue
             apply_subst(ps)
             changed = True
             break
@@ -271,16 +267,6 @@ class Canon(ast.NodeTransformer):
 
     FLIP = {ast.Gt: ast.Lt, ast.GtE: ast.LtE}
     SYMM = (ast.Eq, ast.NotEq, ast.Is, ast.IsNot)
-
-    def __init__(self, pinned_locals=None):
-        super().__init__()
-        # {function name: set of local names} of the pinned tree for this module (None: no baseline -> keep every local)
-        self.pinned_locals = pinned_locals
-
-    def keep_local(self, fn_node, v):
-        if self.pinned_locals is None:
-            return True
-        return v in self.pinned_locals.get(fn_node.name, ())
 
     @staticmethod
     def _has_walrus(e):
@@ -373,7 +359,7 @@ class Canon(ast.NodeTransformer):
                     f.target = f.target.elts[1]
                     f.iter = f.iter.args[0]
         # v = E ; <statement that reads v once>   ->   the statement with E in place of v      (see forward_substitute)
-        forward_substitute(n, self.keep_local)
+        forward_substitute(n)
         return n
 
     visit_AsyncFunctionDef = visit_FunctionDef
@@ -456,33 +442,13 @@ class Canon(ast.NodeTransformer):
 _SINGLETONS = (ast.expr_context, ast.operator, ast.unaryop, ast.cmpop, ast.boolop)
 
 
-_PINNED_LOCALS = None
-
-
-def _pinned_locals(module_name):
-    """{function name: local names} of the pinned tree for one module; {} for a module the pinned tree does not have (all its
-    temporaries are new); None when there is no baseline (nothing is substituted beyond whole-value temporaries)."""
-    global _PINNED_LOCALS
-    if _PINNED_LOCALS is None:
-        import json as _json
-        from pathlib import Path as _P
-
-        try:
-            _PINNED_LOCALS = _json.loads(_P(__file__).with_name("baseline_functions.json").read_text()).get("locals") or False
-        except Exception:
-            _PINNED_LOCALS = False
-    if _PINNED_LOCALS is False:
-        return None
-    return {f: set(v) for f, v in _PINNED_LOCALS.get(module_name, {}).items()}
-
-
 class Module:
     def __init__(self, name, path, relpath, source):
         self.name = name
         self.path = path
         self.relpath = relpath
         self.source = source
-        self.tree = ast.fix_missing_locations(Canon(_pinned_locals(name)).visit(ast.parse(source, filename=str(path))))
+        self.tree = ast.fix_missing_locations(Canon().visit(ast.parse(source, filename=str(path))))
         from .inline import desugar_match, inline_compiled_regexes, inline_new_helpers, normalise_idioms, normalise_map_calls
 
         self.idioms = desugar_match(self.tree) + normalise_map_calls(self.tree) + normalise_idioms(self.tree) + inline_compiled_regexes(self.tree)
